@@ -140,16 +140,18 @@ CHECKS = {
        "(gain-offset skipped there).",
   tech="Lean 4 proof (Nat division/modulo arithmetic, list computation) + bit-identity differential runs", ref='7 C14'),
  'C15': dict(
-  text="Proof (Lean 4), interim set: the relative-distance test is exactly the 10 % test (relDist_le_iff), bands without "
-       "wavelength never take part in wavelength matching, numpy any() truthiness of NaN (3 theorems; the full set - equal "
-       "lengths, source order, one-to-one, within tolerance incl. file-order fallback, no silent drop, nearest-band optimality - "
-       "is stated in DESIGN.md and is being proved against the same model). Tied to the code by 2000 (quick) / 50000 (thorough) "
-       "generated band-metadata configurations run through the real MatchedPairReader._match_pair_bands (stub datasets) and a "
-       "sample through real files and RasterFuse: matched band lists or error kind equal to the model's (`match`), plus the "
-       "property's soundness predicates evaluated directly on the code's answer.",
-  note="Wavelengths are dyadic rationals so that float and rational comparisons agree; the tolerance is the exact rational of "
-       "the double 0.1. A source wavelength of 0 (inf distance) is outside the model.",
-  tech="Lean 4 executable model + (partial) proofs; exhaustive-style differential run against the real matcher", ref='7 C15'),
+  text="Proof (Lean 4) about the executable model of _match_pair_bands (greedy loop with masked-array semantics, threshold, "
+       "file-order fallback, force, truncation), for every band list, wavelength metadata and selection: matched lists have "
+       "equal length; the source list is a sub-list of the given order; only candidate reference bands are used and none twice; "
+       "unless forced no selected source band is dropped; every pair with wavelengths on both sides is within tolerance - "
+       "including file-order fallback pairs; and if every source band's nearest reference band is strictly nearest, distinct and "
+       "within tolerance, the result is exactly that assignment (8 theorems, ~1100 lines incl. the greedy-loop invariant). Tied "
+       "to the code by 2000 (quick) / 50000 (thorough) generated configurations through the real matcher (stub datasets) and a "
+       "sample through real files and RasterFuse: band lists / error kind equal to the model's, plus soundness predicates.",
+  note="Known finding D12 (open, with a checked witness theorem): all-zero reference wavelengths bypass the tolerance test "
+       "(numpy any()). Wavelengths are dyadic rationals in the correspondence run; tolerance = exact rational of the double 0.1. "
+       "_get_band_info is modelled and differentially tested but has no theorems of its own.",
+  tech="Lean 4 proof (loop invariant for the greedy matcher, list/nodup/sublist reasoning) + differential run", ref='7 C15'),
  'C16': dict(
   text="Proof (Lean 4): the repaired covers_bounds predicate accepts iff the source footprint is contained in the reference "
        "footprint on each axis (covers_iff_contains), overhang on any side by any amount is rejected, the same grid is accepted, "
